@@ -13,6 +13,7 @@ import itertools
 from typing import Any, Dict, List
 
 from mc import codec
+from mc.report import guard_harness as _guard
 from mc.report import add_sample, add_violation, count, new_part
 
 LEVEL = "exploration"
@@ -63,6 +64,7 @@ def check_struct(kind: str, clsname: str, names, values, part):
         raw = bytes(msg)
         dec = (M.deserialize_host_msg if kind == "host" else M.deserialize_return_msg)(raw)
     except Exception as exc:
+        _guard(exc)
         add_violation(part, f"raises/{clsname}", f"{clsname}: serialise/deserialise raised {type(exc).__name__}: {exc}", case)
         return
     if type(dec) is not cls:
@@ -100,6 +102,7 @@ def shard_enums(shard):
             if type(dec) is not M.SignalMessage or M.Signal(dec.signal) is not sig:
                 add_violation(part, "field/SignalMessage/signal", "signal changes in the round trip", case)
         except Exception as exc:
+            _guard(exc)
             add_violation(part, "raises/SignalMessage", f"{type(exc).__name__}: {exc}", case)
     count(part, "type/SignalMessage", len(M.Signal))
     for ec in M.ErrorCode:
@@ -111,6 +114,7 @@ def shard_enums(shard):
             if type(dec) is not M.ErrorMessage or M.ErrorCode(dec.err_code) is not ec:
                 add_violation(part, "field/ErrorMessage/err_code", "error code changes in the round trip", case)
         except Exception as exc:
+            _guard(exc)
             add_violation(part, "raises/ErrorMessage", f"{type(exc).__name__}: {exc}", case)
     count(part, "type/ErrorMessage", len(M.ErrorCode))
     # every message type byte maps back to its own class
@@ -144,6 +148,7 @@ def shard_retreg(shard):
                     add_violation(part, "field/ReturnRegMessage", "returned register message changes in the round trip", case,
                                   {"got": [dec.register.register_name, dec.register.register_index, dec.value]})
             except Exception as exc:
+                _guard(exc)
                 add_violation(part, "raises/ReturnRegMessage", f"{type(exc).__name__}: {exc}", case)
     count(part, "type/ReturnRegMessage", part["evals"])
     return part
@@ -158,6 +163,7 @@ def check_array(address: int, values: List[Any], part):
     try:
         dec = M.deserialize_return_msg(bytes(M.ReturnArrayMessage(address=address, values=list(values))))
     except Exception as exc:
+        _guard(exc)
         add_violation(part, "raises/ReturnArrayMessage", f"{type(exc).__name__}: {exc}", case)
         return
     if type(dec) is not M.ReturnArrayMessage:
@@ -247,6 +253,7 @@ def shard_subroutine(shard):
                         add_violation(part, "field/SubroutineMessage", "subroutine in a message decodes differently", case)
                         break
             except Exception as exc:
+                _guard(exc)
                 add_violation(part, "raises/SubroutineMessage", f"{type(exc).__name__}: {exc}", case)
         count(part, "type/SubroutineMessage", len(seqs))
     # the payload is opaque bytes: every first byte (= every version major, incl. the message-type value itself), repeated
@@ -263,6 +270,7 @@ def shard_subroutine(shard):
                 add_violation(part, "field/SubroutineMessage/payload-bytes", "subroutine payload bytes change in the message round trip",
                               {"class": "SubroutineMessage", "payload": raw}, {"got": dec.subroutine})
         except Exception as exc:
+            _guard(exc)
             add_violation(part, "raises/SubroutineMessage", f"{type(exc).__name__}: {exc}", {"class": "SubroutineMessage", "payload": raw})
     count(part, "subroutine-payloads", len(payloads))
     return part
@@ -343,6 +351,7 @@ def run_history(target: str, init: int, ops, part) -> None:
         raw = bytes(msg)
         dec = (M.deserialize_host_msg if target in HOST_FIELDS or target == "SubroutineMessage" else M.deserialize_return_msg)(raw)
     except Exception as exc:
+        _guard(exc)
         add_violation(part, f"history-raises/{target}", f"{type(exc).__name__}: {exc}", case)
         return
     if type(dec).__name__ != target:
